@@ -5,6 +5,7 @@
 -/
 import Proofs.SchemaDocs
 import Proofs.SchemaAttr
+import Proofs.SchemaMethods
 import SpyneModel.Generated.Facts01
 import Props.Facts08Good
 import SpyneModel.Generated.Facts06
@@ -142,6 +143,19 @@ theorem no_dangling_qname (I : Iface) (ek : List (List Text × Key)) (vals : Lis
       (r.2.1 = r.1 ∨ r.2.1 ∈ ((gen (app I ek vals)).doc r.1).imports) ∧ r.2.1 ∈ (gen (app I ek vals)).docNs :=
   Schema.no_dangling_qname _ (Schema.gen_compiles (app I ek vals) facts08_good hwf) pm hp
 
+/-- **method elements.** Declaring the request / response elements of the methods in the document of
+    the application's namespace — for a `_body_style='bare'` method an element typed by the argument
+    class itself, in whatever namespace that class lives, together with the import of that namespace
+    (`Interface.add_method`) — keeps the set compiling: element names unique, every element type
+    visible from the application's document and defined, every import with a document. Without that
+    import the element conjunct of `compiles` fails (libxml2: "references ... are not allowed, since
+    not indicated by an import statement"). -/
+theorem method_elements_compile (I : Iface) (ek : List (List Text × Key)) (vals : List (PrimTy × List Val))
+    (hwf : (app I ek vals).wf = true) (M : Methods)
+    (hm : M.elems.all (fun m => (gen (app I ek vals)).hasComplex m.2 || (gen (app I ek vals)).hasSimple m.2) = true) :
+    ((gen (app I ek vals)).withMethods M).compiles = true :=
+  gen_withMethods_compiles (app I ek vals) facts08_good hwf M hm
+
 /-! ### member kinds: XmlAttribute, XmlData, xml_choice_group -/
 
 /-- an application whose classes have attribute / data members (build-XML's `IfaceA`) and choice
@@ -267,6 +281,13 @@ open SpyneModel.Schema.Example in
 example : commonForm facts08 factsXml iface.tns cMsg.ns (ClassDef.toTy cMsg) goodDoc = true ∧
     commonForm facts08 factsXml iface.tns cMsg.ns (ClassDef.toTy cMsg) badDoc = true ∧
     (gen (app iface [])).valid goodDoc = true ∧ (gen (app iface [])).valid badDoc = false := by decide +kernel
+
+/-- a bare method `x0(Derived)` of the example application: its request element lives in `urn:t`, is
+    typed by `urn:a`:Derived, and `urn:t` imports `urn:a`; dropping that import breaks `compiles` -/
+example :
+    let S := (gen (app Example.iface [])).withMethods { elems := [(Example.T "x0", (Example.T "urn:a", Example.T "Derived"))] }
+    S.compiles = true ∧ S.elements.lookup (Example.T "urn:t", Example.T "x0") = some (Example.T "urn:a", Example.T "Derived") ∧
+    ({ S with imports := S.imports.filter (fun i => i.1 ≠ Example.T "urn:t") } : Schema).compiles = false := by decide +kernel
 
 /-! ### non-vacuity: attributes (inherited, required, customised), simple content, a choice -/
 
